@@ -3124,6 +3124,10 @@ static void PrintDebSymbols_PNode(PTree Tree, void* pData) {
         return;
     }
 
+    /* errno may still hold a failure from long ago (e.g. a file IFEXIST did
+       not find): only failures of the writes below count */
+
+    errno = 0;
     if (!DebContext->HWritten) {
         fprintf(DebContext->f, "\n");
         ChkIO(ErrNum_FileWriteError);
